@@ -188,6 +188,17 @@ Proof.
     rewrite need_small by lia. lia.
 Qed.
 
+(* each element that leaves the old table frees at least one slot of headroom *)
+Lemma need_pred m R : 0 < R -> 0 < m -> need (m - 1) R + 1 <= need m R.
+Proof.
+  intros HR Hm. destruct (N.eq_dec m 1) as [->|H1].
+  - change (1 - 1) with 0. rewrite need_0, need_small by lia. lia.
+  - rewrite !need_pos by lia. pose proof (cdiv_mono (m - 1) m R HR ltac:(lia)). lia.
+Qed.
+
+Lemma need_ge n R : 0 < R -> n <= need n R.
+Proof. intros. unfold need. destruct (N.eqb_spec n 0); lia. Qed.
+
 Lemma need_mono n m R : 0 < R -> n <= m -> need n R <= need m R.
 Proof.
   intros HR Hle. unfold need.
